@@ -39,7 +39,9 @@ HOSTILE_PATHS = ["//evil.example/x", "/@evil.example/x", "/api/@evil.example", "
                  "/api/:1966", "/api/x%3Fy", "/api/x%23y", "/\\evil.example/x", "/api/\\\\evil.example",
                  # raw non-ASCII in forms that Unicode normalisation would re-spell (decomposed accents, compatibility singletons)
                  "/api/cafe\u0301/menu?q=re\u0301sume\u0301", "/mirror/\u212a/280", "/api/x\u037ey=1", "/api/\u1112\u1161\u11ab",
-                 "/api/caf\u00e9/\u65e5\u672c"]
+                 "/api/caf\u00e9/\u65e5\u672c",
+                 # the path is exactly a prefix that has no trailing slash, and there is a query
+                 "/api?cats", "/api?", "/mirror?x=/y", "/a/b?q=1", "/api/v1?k=v", "/api?a?b", "/apikey?x"]
 
 
 @st.composite
